@@ -290,6 +290,17 @@ func GenFacet(g *rng.Rand, name string, distinctTerms func(field string) int) Fa
 				a = whenBase.Add(time.Duration(g.Range(0, 40)) * 24 * time.Hour)
 				b = whenBase.Add(time.Duration(g.Range(0, 40)) * 24 * time.Hour)
 			}
+			// bounds far outside the int64-nanosecond window (1677..2262): a facet bound is a
+			// point in time, not a nanosecond count
+			if g.Chance(1, 5) {
+				far := []time.Time{time.Date(1000, 1, 1, 0, 0, 0, 0, time.UTC), time.Date(1500, 6, 1, 0, 0, 0, 0, time.UTC),
+					time.Date(2300, 1, 1, 0, 0, 0, 0, time.UTC), time.Date(3000, 12, 31, 0, 0, 0, 0, time.UTC)}
+				if g.Bool() {
+					a = rng.Pick(g, far)
+				} else {
+					b = rng.Pick(g, far)
+				}
+			}
 			if a.After(b) && g.Chance(9, 10) {
 				a, b = b, a
 			}
